@@ -98,26 +98,29 @@ Record state := mkS {
   t_vals : list (Z * pval);            (* validator trie: valinfo- entries *)
   t_index : option (list Z);           (* valindex entry (None = never written) *)
   t_stat : stat;                       (* valstat entry *)
-  blobs : list (list Z) }.             (* delegation lists written to the trie database by Commit *)
+  blobs : list (list Z);               (* delegation lists written to the trie database by Commit *)
+  adirty : list Z }.                   (* stateObjectsDirty (accounts), kept sorted *)
 
 Definition init : state :=
-  mkS [] [] [] stat_zero [] [] [] [] [] 0 [] None stat_zero [].
+  mkS [] [] [] stat_zero [] [] [] [] [] 0 [] None stat_zero [] [].
 
 (* field setters *)
-Definition w_arrs s x := mkS x (vmap s) (vindex s) (stat_ s) (vjournal s) (vdirty s) (accts s) (ajournal s) (revs s) (next_id s) (t_vals s) (t_index s) (t_stat s) (blobs s).
-Definition w_vmap s x := mkS (arrs s) x (vindex s) (stat_ s) (vjournal s) (vdirty s) (accts s) (ajournal s) (revs s) (next_id s) (t_vals s) (t_index s) (t_stat s) (blobs s).
-Definition w_vindex s x := mkS (arrs s) (vmap s) x (stat_ s) (vjournal s) (vdirty s) (accts s) (ajournal s) (revs s) (next_id s) (t_vals s) (t_index s) (t_stat s) (blobs s).
-Definition w_stat s x := mkS (arrs s) (vmap s) (vindex s) x (vjournal s) (vdirty s) (accts s) (ajournal s) (revs s) (next_id s) (t_vals s) (t_index s) (t_stat s) (blobs s).
-Definition w_vjournal s x := mkS (arrs s) (vmap s) (vindex s) (stat_ s) x (vdirty s) (accts s) (ajournal s) (revs s) (next_id s) (t_vals s) (t_index s) (t_stat s) (blobs s).
-Definition w_vdirty s x := mkS (arrs s) (vmap s) (vindex s) (stat_ s) (vjournal s) x (accts s) (ajournal s) (revs s) (next_id s) (t_vals s) (t_index s) (t_stat s) (blobs s).
-Definition w_accts s x := mkS (arrs s) (vmap s) (vindex s) (stat_ s) (vjournal s) (vdirty s) x (ajournal s) (revs s) (next_id s) (t_vals s) (t_index s) (t_stat s) (blobs s).
-Definition w_ajournal s x := mkS (arrs s) (vmap s) (vindex s) (stat_ s) (vjournal s) (vdirty s) (accts s) x (revs s) (next_id s) (t_vals s) (t_index s) (t_stat s) (blobs s).
-Definition w_revs s x := mkS (arrs s) (vmap s) (vindex s) (stat_ s) (vjournal s) (vdirty s) (accts s) (ajournal s) x (next_id s) (t_vals s) (t_index s) (t_stat s) (blobs s).
-Definition w_next_id s x := mkS (arrs s) (vmap s) (vindex s) (stat_ s) (vjournal s) (vdirty s) (accts s) (ajournal s) (revs s) x (t_vals s) (t_index s) (t_stat s) (blobs s).
-Definition w_t_vals s x := mkS (arrs s) (vmap s) (vindex s) (stat_ s) (vjournal s) (vdirty s) (accts s) (ajournal s) (revs s) (next_id s) x (t_index s) (t_stat s) (blobs s).
-Definition w_t_index s x := mkS (arrs s) (vmap s) (vindex s) (stat_ s) (vjournal s) (vdirty s) (accts s) (ajournal s) (revs s) (next_id s) (t_vals s) x (t_stat s) (blobs s).
-Definition w_t_stat s x := mkS (arrs s) (vmap s) (vindex s) (stat_ s) (vjournal s) (vdirty s) (accts s) (ajournal s) (revs s) (next_id s) (t_vals s) (t_index s) x (blobs s).
-Definition w_blobs s x := mkS (arrs s) (vmap s) (vindex s) (stat_ s) (vjournal s) (vdirty s) (accts s) (ajournal s) (revs s) (next_id s) (t_vals s) (t_index s) (t_stat s) x.
+Definition w_arrs s x := mkS x (vmap s) (vindex s) (stat_ s) (vjournal s) (vdirty s) (accts s) (ajournal s) (revs s) (next_id s) (t_vals s) (t_index s) (t_stat s) (blobs s) (adirty s).
+Definition w_vmap s x := mkS (arrs s) x (vindex s) (stat_ s) (vjournal s) (vdirty s) (accts s) (ajournal s) (revs s) (next_id s) (t_vals s) (t_index s) (t_stat s) (blobs s) (adirty s).
+Definition w_vindex s x := mkS (arrs s) (vmap s) x (stat_ s) (vjournal s) (vdirty s) (accts s) (ajournal s) (revs s) (next_id s) (t_vals s) (t_index s) (t_stat s) (blobs s) (adirty s).
+Definition w_stat s x := mkS (arrs s) (vmap s) (vindex s) x (vjournal s) (vdirty s) (accts s) (ajournal s) (revs s) (next_id s) (t_vals s) (t_index s) (t_stat s) (blobs s) (adirty s).
+Definition w_vjournal s x := mkS (arrs s) (vmap s) (vindex s) (stat_ s) x (vdirty s) (accts s) (ajournal s) (revs s) (next_id s) (t_vals s) (t_index s) (t_stat s) (blobs s) (adirty s).
+Definition w_vdirty s x := mkS (arrs s) (vmap s) (vindex s) (stat_ s) (vjournal s) x (accts s) (ajournal s) (revs s) (next_id s) (t_vals s) (t_index s) (t_stat s) (blobs s) (adirty s).
+Definition w_accts s x := mkS (arrs s) (vmap s) (vindex s) (stat_ s) (vjournal s) (vdirty s) x (ajournal s) (revs s) (next_id s) (t_vals s) (t_index s) (t_stat s) (blobs s) (adirty s).
+Definition w_ajournal s x := mkS (arrs s) (vmap s) (vindex s) (stat_ s) (vjournal s) (vdirty s) (accts s) x (revs s) (next_id s) (t_vals s) (t_index s) (t_stat s) (blobs s) (adirty s).
+Definition w_revs s x := mkS (arrs s) (vmap s) (vindex s) (stat_ s) (vjournal s) (vdirty s) (accts s) (ajournal s) x (next_id s) (t_vals s) (t_index s) (t_stat s) (blobs s) (adirty s).
+Definition w_next_id s x := mkS (arrs s) (vmap s) (vindex s) (stat_ s) (vjournal s) (vdirty s) (accts s) (ajournal s) (revs s) x (t_vals s) (t_index s) (t_stat s) (blobs s) (adirty s).
+Definition w_t_vals s x := mkS (arrs s) (vmap s) (vindex s) (stat_ s) (vjournal s) (vdirty s) (accts s) (ajournal s) (revs s) (next_id s) x (t_index s) (t_stat s) (blobs s) (adirty s).
+Definition w_t_index s x := mkS (arrs s) (vmap s) (vindex s) (stat_ s) (vjournal s) (vdirty s) (accts s) (ajournal s) (revs s) (next_id s) (t_vals s) x (t_stat s) (blobs s) (adirty s).
+Definition w_t_stat s x := mkS (arrs s) (vmap s) (vindex s) (stat_ s) (vjournal s) (vdirty s) (accts s) (ajournal s) (revs s) (next_id s) (t_vals s) (t_index s) x (blobs s) (adirty s).
+Definition w_blobs s x := mkS (arrs s) (vmap s) (vindex s) (stat_ s) (vjournal s) (vdirty s) (accts s) (ajournal s) (revs s) (next_id s) (t_vals s) (t_index s) (t_stat s) x (adirty s).
+
+Definition w_adirty s x := mkS (arrs s) (vmap s) (vindex s) (stat_ s) (vjournal s) (vdirty s) (accts s) (ajournal s) (revs s) (next_id s) (t_vals s) (t_index s) (t_stat s) (blobs s) x.
 
 (* ---- association lists and sorted sets ---------------------------------- *)
 
@@ -363,8 +366,8 @@ Definition remove_validator (s : state) (a : Z) : option state :=
   match aget (vmap s) a with
   | None => Some s
   | Some v =>
-    let v' := set_deleted v true in                  (* same object as the journalled one *)
-    let s1 := vj_push s (VDelete a v') in
+    let v' := set_deleted v true in
+    let s1 := vj_push s (VDelete a v) in             (* a PartialCopy taken before the flag is set *)
     let s2 := w_vmap s1 (aset (vmap s1) a v') in
     with_stat s2 (decr_stat (stat_ s2) v')
   end.
@@ -420,8 +423,10 @@ Definition update_delegation (s : state) (d : Z) (v : val) (delta : Z) : option 
         let nstake := tok / stake_unit in
         let dstake := nstake - d_stake e in
         let e' := mkD d nstake tok in
-        let nv0 := set_total v (v_token v + delta) (v_stake v + dstake) in   (* PartialCopy shares the slice *)
-        match update_dfrom s nv0 e' with
+        (* newVal gets its own slice: make(len, len+1) + copy *)
+        let '(s0, aid) := alloc s (view s v ++ [None]) in
+        let nv0 := set_view (set_total v (v_token v + delta) (v_stake v + dstake)) aid (v_len v) in
+        match update_dfrom s0 nv0 e' with
         | None => None
         | Some (s1, nv, flag) =>
           match update_validator s1 nv v with
@@ -452,7 +457,7 @@ Definition vundo1 (s : state) (e : ventry) : option state :=
       | Some st => Some (w_vindex (w_vmap (w_stat s st) (adel (vmap s) a)) (srem a (vindex s)))
       end
     end
-  | VDelete a old => Some (set_validator s old)
+  | VDelete a old => let s1 := set_validator s old in with_stat s1 (incr_stat (stat_ s1) old)
   | VUpdate a nw old =>
     let s1 := set_validator s old in
     if stake_equal nw old then Some s1
@@ -524,8 +529,17 @@ Definition revert (s : state) (id : Z) : option state :=
     end
   end.
 
+Definition aentry_addr (e : aentry) : Z :=
+  match e with JCreate a => a | JBal a => a | JDlgBal a _ => a | JDlgs a _ => a end.
+
 Definition ventry_addr (e : ventry) : Z :=
   match e with VCreate a => a | VUpdate a _ _ => a | VDelete a _ => a end.
+
+Definition finalise_adirty (s : state) : list Z :=
+  fold_left (fun acc e =>
+               let a := aentry_addr e in
+               match aget (accts s) a with Some _ => sins a acc | None => acc end)
+            (ajournal s) (adirty s).
 
 (* Finalise: the validator part and clearJournalAndRefund *)
 Definition finalise (s : state) : state :=
@@ -533,7 +547,8 @@ Definition finalise (s : state) : state :=
                  let a := ventry_addr e in
                  match aget (vmap s) a with Some _ => sins a acc | None => acc end)
                (vjournal s) (vdirty s) in
-  w_revs (w_ajournal (w_vjournal (w_vdirty s dirt) []) []) [].
+  let adirt := finalise_adirty s in
+  w_adirty (w_revs (w_ajournal (w_vjournal (w_vdirty s dirt) []) []) []) adirt.
 
 Definition is_invalid (v : val) : bool :=
   Z.eqb (Z.abs (v_token v) mod two64) 0 && Z.eqb (Z.abs (v_stake v) mod two64) 0.
@@ -587,12 +602,12 @@ Definition intermediate_root (s : state) : option state :=
     Some (if stat_neg (stat_ s2) then s2 else w_t_stat s2 (stat_ s2))
   end.
 
-Fixpoint commit_blobs (l : list (Z * acct)) (b : list (list Z)) : list (Z * acct) * list (list Z) :=
+Fixpoint commit_blobs (dirty : list Z) (l : list (Z * acct)) (b : list (list Z)) : list (Z * acct) * list (list Z) :=
   match l with
   | [] => ([], b)
   | (a, ac) :: r =>
-    let '(r', b') := commit_blobs r b in
-    if a_ddirty ac then
+    let '(r', b') := commit_blobs dirty r b in
+    if mem a dirty && a_ddirty ac then
       ((a, mkA (a_dbal ac) (a_hash ac) (a_loaded ac) false) :: r',
        match a_hash ac with [] => b' | h => h :: b' end)
     else ((a, ac) :: r', b')
@@ -603,10 +618,10 @@ Definition commit_reload (s : state) : option state :=
   match intermediate_root s with
   | None => None
   | Some s1 =>
-    let '(ac, b) := commit_blobs (accts s1) (blobs s1) in
+    let '(ac, b) := commit_blobs (adirty s1) (accts s1) (blobs s1) in
     let ac' := map (fun p => (fst p, mkA (a_dbal (snd p)) (a_hash (snd p)) false false)) ac in
     Some (mkS (arrs s1) [] (match t_index s1 with Some l => l | None => [] end) (t_stat s1)
-              [] [] ac' [] [] 0 (t_vals s1) (t_index s1) (t_stat s1) b)
+              [] [] ac' [] [] 0 (t_vals s1) (t_index s1) (t_stat s1) b [])
   end.
 
 (* Validator.DeepCopy: None = nil element dereferenced *)
@@ -658,8 +673,10 @@ Definition copy (s : state) : option state :=
     match copy_vals2 s1 (vdirty s) m1 d1 (vindex s) with
     | None => None
     | Some (s2, m2, d2, idx) =>
-      let ac' := map (fun p => (fst p, mkA (a_dbal (snd p)) (a_hash (snd p)) false false)) (accts s) in
-      Some (mkS (arrs s2) m2 idx (stat_ s) [] d2 ac' [] [] 0 (t_vals s) (t_index s) (t_stat s) (blobs s))
+      let adirt := (finalise_adirty s) in
+      let ac' := map (fun p => (fst p, if mem (fst p) adirt then snd p
+                                       else mkA (a_dbal (snd p)) (a_hash (snd p)) false false)) (accts s) in
+      Some (mkS (arrs s2) m2 idx (stat_ s) [] d2 ac' [] [] 0 (t_vals s) (t_index s) (t_stat s) (blobs s) adirt)
     end
   end.
 
@@ -899,7 +916,8 @@ Definition obs (uv ua : list Z) (s : state) : list Z :=
                                    end)
                         end) ua
   ++ [nz (length (ajournal s)); nz (length (vjournal s)); nz (length (revs s)); next_id s]
-  ++ nz (length (vdirty s)) :: vdirty s.
+  ++ nz (length (vdirty s)) :: vdirty s
+  ++ nz (length (adirty s)) :: adirty s.
 
 (* hashes of the observation after every op that did not panic *)
 Fixpoint trace (uv ua : list Z) (s : state) (l : list op) : list Z * bool :=
